@@ -174,6 +174,14 @@ pub struct DeRun<'de> {
     pub hint: Hint,
     pub strict_end: bool,
     pub fault: Option<CallFault>,
+    /// the format drives map decoding from the `fields` argument of
+    /// `deserialize_struct`: only entries whose key is listed there are
+    /// presented to the visitor, the others are left alone (what serde's own
+    /// `#[serde(flatten)]` machinery and some real formats do)
+    pub honour_fields: bool,
+    /// what the code under test passed to `deserialize_struct`
+    pub fields_seen: Option<&'static [&'static str]>,
+    pub struct_name_seen: Option<&'static str>,
     // state
     pos: usize,
     pending_value: bool,
@@ -194,6 +202,9 @@ impl<'de> DeRun<'de> {
             hint,
             strict_end,
             fault,
+            honour_fields: false,
+            fields_seen: None,
+            struct_name_seen: None,
             pos: 0,
             pending_value: false,
             calls: 0,
@@ -228,6 +239,17 @@ impl<'de> DeRun<'de> {
         Ok(())
     }
 
+    /// does the format present this entry to the visitor at all?
+    fn presented(&self, e: &Entry) -> bool {
+        if !self.honour_fields {
+            return true;
+        }
+        match self.fields_seen {
+            Some(fs) => fs.iter().any(|f| *f == e.key),
+            None => true,
+        }
+    }
+
     fn remaining_hint(&self, remaining: usize) -> Option<usize> {
         match self.hint {
             Hint::Exact => Some(remaining),
@@ -240,7 +262,7 @@ impl<'de> DeRun<'de> {
     fn leftover(&self) -> bool {
         match self.mode {
             Mode::Seq => self.pos < self.entries.len() && self.entries[self.pos].val.is_some(),
-            Mode::Map => self.pos < self.entries.len() || self.pending_value,
+            Mode::Map => self.pending_value || self.entries[self.pos.min(self.entries.len())..].iter().any(|e| self.presented(e)),
             Mode::Scalar => false,
         }
     }
@@ -320,7 +342,25 @@ impl<'de> Deserializer<'de> for &mut DeRun<'de> {
     fn deserialize_any<V: Visitor<'de>>(self, visitor: V) -> Result<V::Value, SimError> {
         self.drive(visitor)
     }
-    forward_all_to!(deserialize_any);
+    fn deserialize_struct<V: Visitor<'de>>(
+        self,
+        name: &'static str,
+        fields: &'static [&'static str],
+        visitor: V,
+    ) -> Result<V::Value, SimError> {
+        self.fields_seen = Some(fields);
+        self.struct_name_seen = Some(name);
+        self.log.str(name);
+        for f in fields {
+            self.log.str(f);
+        }
+        self.drive(visitor)
+    }
+    serde::forward_to_deserialize_any! {
+        bool i8 i16 i32 i64 i128 u8 u16 u32 u64 u128 f32 f64 char str string
+        bytes byte_buf option unit unit_struct newtype_struct seq tuple
+        tuple_struct map enum identifier ignored_any
+    }
     fn is_human_readable(&self) -> bool {
         true
     }
@@ -368,6 +408,11 @@ impl<'de> MapAccess<'de> for MapAcc<'_, 'de> {
             run.protocol_violations += 1;
             run.pending_value = false;
             run.pos += 1;
+        }
+        while run.pos < run.entries.len() && !run.presented(&run.entries[run.pos]) {
+            run.pos += 1;
+            run.log.byte(0x5C);
+            run.sig.byte(0x5C);
         }
         if run.pos < run.entries.len() {
             let entries: &'de [Entry] = run.entries;
